@@ -295,6 +295,9 @@ fn minimise(tc: &TailCase, sig_class: &str) -> TailCase {
     let class_of = |s: &str| s.split(' ').take(2).collect::<Vec<_>>().join(" ");
     let fails = |c: &TailCase| matches!(evaluate(c), Ok(Some((s, _))) if class_of(&s) == sig_class);
     let mut best = tc.clone();
+    if !crate::report::minimise_on() {
+        return best;
+    }
     // smaller n
     for ns in [vec![10u64, 100], vec![10, 1000]] {
         let mut c = best.clone();
@@ -516,4 +519,8 @@ pub fn replay(case: &Value) -> Result<Option<Violation>, String> {
         case: case.clone(),
         detail,
     }))
+}
+
+pub fn rerun(_tier: Tier, seed: u64, run: u64) -> Option<Violation> {
+    one_run(seed, run, &[10, 1000, 100_000]).violation
 }
